@@ -93,8 +93,7 @@ func c11AvoidFinding(x1, x2 []int64, alt int) int {
 		return alt
 	}
 	twoU := c11TwoU(x1, x2)
-	want, finding := c11SpecTwoSided(t, n1, n2, twoU)
-	if math.Abs(want-finding) <= 1e-13*math.Max(want, 1e-300) {
+	if _, _, differ := c11SpecTwoSided(t, n1, n2, twoU); !differ {
 		return alt
 	}
 	if twoU%2 == 0 {
